@@ -70,7 +70,7 @@ Fixpoint plain (e : expr) : Prop :=
   | Py p => py_const p = true /\ match p with PFn f => okfun f = true | _ => True end
   | Seq es | Choice es | Longest es | Skip es =>
       (fix all (l : list expr) : Prop := match l with [] => True | x :: l' => plain x /\ all l' end) es
-  | Discard a b _ | Apply a b _ | Where a b | Sep a b _ _ _ _ | Let _ a b => plain a /\ plain b
+  | Discard a b _ | Apply a b _ | Where a b | Sep a b _ _ _ _ | Let _ _ a b => plain a /\ plain b
   | Opt e | ExpectNot e | Rep e _ _ => plain e
   | Class _ ms => (fix all (l : list (option nat * bool * expr)) : Prop :=
                      match l with [] => True | (_, _, x) :: l' => plain x /\ all l' end) ms
@@ -274,7 +274,7 @@ Proof.
       repeat split; auto; lia. }
   specialize (Hskip ignored eq_refl).
   destruct e as [sv sk|id sk|b sk|r|es|a b dl|es|e|e mn mx|e|e|es|es|k| |e sp discard trailer ae rs
-                 |py|a b al|e pred|x a body|cls ms|pre opd post inf|x|callee args];
+                 |py|a b al|e pred|x sh a body|cls ms|pre opd post inf|x|callee args];
     cbn [peg] in H; cbn [plain] in Hpl.
   - (* Str *) destruct sv as [|c sv]; [inversion H; subst; repeat split; auto; exact I|].
     destruct (prefix_at (c :: sv) t p) eqn:Epf; [|discriminate].
@@ -377,8 +377,8 @@ Proof.
         assert (W1 : within p q1 v1) by (eapply within_mono; [| |exact Z]; lia).
         assert (W2 : within_all p q1 acc) by (eapply within_all_mono; [| |exact C]; lia).
         apply (IHms (match name with Some x0 => (x0, v1) :: E0 | None => E0 end) q1
-                    (if isf then v1 :: acc else acc)); try exact Hms; try exact Hc; try lia.
-        destruct isf; cbn; auto. }
+                    (match field_name name isf with Some _ => v1 :: acc | None => acc end)); try exact Hms; try exact Hc; try lia.
+        destruct (field_name name isf); cbn; auto. }
     apply (HC ms E p [] (le_n _) Hp I Hpl H).
   - discriminate.
   - discriminate.
